@@ -93,7 +93,7 @@ type options struct {
 
 // A dnssl represents an NDP DNS Search List option.
 type dnssl struct {
-	LifetimeSeconds int      `json:"lifetime_seconds"`
+	LifetimeSeconds int64    `json:"lifetime_seconds"`
 	DomainNames     []string `json:"domain_names"`
 }
 
@@ -102,13 +102,13 @@ type prefix struct {
 	Prefix                             string `json:"prefix"`
 	OnLink                             bool   `json:"on_link"`
 	AutonomousAddressAutoconfiguration bool   `json:"autonomous_address_autoconfiguration"`
-	ValidLifetimeSeconds               int    `json:"valid_lifetime_seconds"`
-	PreferredLifetimeSeconds           int    `json:"preferred_lifetime_seconds"`
+	ValidLifetimeSeconds               int64  `json:"valid_lifetime_seconds"`
+	PreferredLifetimeSeconds           int64  `json:"preferred_lifetime_seconds"`
 }
 
 // A RDNSS represents an NDP Recursive DNS Servers option.
 type rdnss struct {
-	LifetimeSeconds int      `json:"lifetime_seconds"`
+	LifetimeSeconds int64    `json:"lifetime_seconds"`
 	Servers         []string `json:"servers"`
 }
 
@@ -116,13 +116,13 @@ type rdnss struct {
 type route struct {
 	Prefix               string `json:"prefix"`
 	Preference           string `json:"preference"`
-	RouteLifetimeSeconds int    `json:"route_lifetime_seconds"`
+	RouteLifetimeSeconds int64  `json:"route_lifetime_seconds"`
 }
 
 // A pref64 represents an NDP PREF64 option.
 type pref64 struct {
 	Prefix          string `json:"prefix"`
-	LifetimeSeconds int    `json:"lifetime_seconds"`
+	LifetimeSeconds int64  `json:"lifetime_seconds"`
 }
 
 // packOptions unpacks individual NDP options to produce an options structure.
@@ -134,7 +134,7 @@ func packOptions(opts []ndp.Option) options {
 			out.CaptivePortal = o.URI
 		case *ndp.DNSSearchList:
 			out.DNSSL = append(out.DNSSL, dnssl{
-				LifetimeSeconds: int(o.Lifetime.Seconds()),
+				LifetimeSeconds: int64(o.Lifetime.Seconds()),
 				DomainNames:     o.DomainNames,
 			})
 		case *ndp.LinkLayerAddress:
@@ -144,15 +144,15 @@ func packOptions(opts []ndp.Option) options {
 		case *ndp.PREF64:
 			out.PREF64 = append(out.PREF64, pref64{
 				Prefix:          o.Prefix.String(),
-				LifetimeSeconds: int(o.Lifetime.Seconds()),
+				LifetimeSeconds: int64(o.Lifetime.Seconds()),
 			})
 		case *ndp.PrefixInformation:
 			out.Prefixes = append(out.Prefixes, prefix{
 				Prefix:                             prefixString(o.Prefix, o.PrefixLength),
 				OnLink:                             o.OnLink,
 				AutonomousAddressAutoconfiguration: o.AutonomousAddressConfiguration,
-				ValidLifetimeSeconds:               int(o.ValidLifetime.Seconds()),
-				PreferredLifetimeSeconds:           int(o.PreferredLifetime.Seconds()),
+				ValidLifetimeSeconds:               int64(o.ValidLifetime.Seconds()),
+				PreferredLifetimeSeconds:           int64(o.PreferredLifetime.Seconds()),
 			})
 		case *ndp.RecursiveDNSServer:
 			servers := make([]string, 0, len(o.Servers))
@@ -161,7 +161,7 @@ func packOptions(opts []ndp.Option) options {
 			}
 
 			out.RDNSS = append(out.RDNSS, rdnss{
-				LifetimeSeconds: int(o.Lifetime.Seconds()),
+				LifetimeSeconds: int64(o.Lifetime.Seconds()),
 				Servers:         servers,
 			})
 		case *ndp.RouteInformation:
@@ -169,7 +169,7 @@ func packOptions(opts []ndp.Option) options {
 				// Pack prefix and mask into a combined CIDR notation string.
 				Prefix:               prefixString(o.Prefix, o.PrefixLength),
 				Preference:           preference(o.Preference),
-				RouteLifetimeSeconds: int(o.RouteLifetime.Seconds()),
+				RouteLifetimeSeconds: int64(o.RouteLifetime.Seconds()),
 			})
 		default:
 			panicf("crhttp: unhandled NDP option: %#v", o)
